@@ -30,6 +30,7 @@ type loopRec struct {
 	Spec     bool // speculative write-set discovery pass
 	Unroll   int
 	Count    int
+	FrameKeys []string
 }
 
 func (f *Frame) clone() *Frame {
@@ -417,6 +418,9 @@ func (ex *Exec) readLeaf(st *State, root types.Type, ref string, names string, t
 }
 
 func (ex *Exec) lenFacts(ln string) {
+	if strings.Contains(ln, "?") {
+		return // mentions a bound variable: no ground fact to record
+	}
 	// (len >= 0) for heap-loaded slices is a global fact about the entry heap; modified
 	// heaps only ever store lengths that satisfy it. Emitted as a per-key axiom lazily.
 	ex.mu.Lock()
@@ -554,6 +558,10 @@ func (ex *Exec) promote(st *State, o *Obj) string {
 	ex.freshRefs = append(ex.freshRefs, r)
 	ex.mu.Unlock()
 	st.Assume(smt.Neq(r, NilRef))
+	// allocation: the new object is none of the objects allocated so far
+	al := ex.allocOf(st)
+	st.Assume(smt.Not(smt.Sel(al, r)))
+	st.Ghost["alloc"] = smt.Sto(al, r, smt.True)
 	content := st.Mem[o]
 	ex.writeLeaf(st, o.Typ, r, "", o.Typ, content)
 	delete(st.Mem, o)
@@ -808,4 +816,25 @@ func (st *State) ModifiedHeapKeys() []string {
 	}
 	sort.Strings(ks)
 	return ks
+}
+
+// allocOf: ghost set of allocated references. Objects that exist when the function under
+// verification is entered (parameters) are allocated; nil never is.
+func (ex *Exec) allocOf(st *State) string {
+	if a, ok := st.Ghost["alloc"]; ok {
+		return a
+	}
+	ex.mu.Lock()
+	if ex.alloc0 == "" {
+		ex.alloc0 = ex.Ctx.Declare("alloc0", nil, "(Array Ref Bool)")
+		ex.GhostSort["alloc"] = "(Array Ref Bool)"
+	}
+	a := ex.alloc0
+	refs := append([]string(nil), ex.entryRefs...)
+	ex.mu.Unlock()
+	for _, r := range refs {
+		st.Assume(smt.Sel(a, r))
+	}
+	st.Ghost["alloc"] = a
+	return a
 }
